@@ -20,7 +20,7 @@
    _instantiate_fields_if_needed, _apply_default_and_update_required_...), fields/collections_impl.py
    (_CollectionMeta), fields/multified_wrappers.py, fields/{array,set_field,tuple_field,map_field}.py. *)
 From Coq Require Import ZArith NArith String List Bool. Import ListNotations.
-From TP Require Import Base.PyVal Fields.FieldAst Fields.SetChain Gen.TypeMapping.
+From TP Require Import Base.PyVal Fields.FieldAst Fields.SetChain Gen.TypeMapping Gen.AnnotGuards.
 Local Open Scope string_scope.
 
 (* ------------------------------------------------------------------ syntax of spellings *)
@@ -440,6 +440,12 @@ Definition marks_optional (s : tyexpr) : bool :=
   | Raise _ => false
   end.
 
+Definition is_fnone (f : field) : bool := match f with FNone => true | _ => false end.
+
+(* a member of a Union that denotes NoneField: None itself, or a spelling converted to NoneField (NoneField, NoneField()) *)
+Definition member_none (a : tyexpr) : bool :=
+  is_tnone a || match convert a with Ok f => is_fnone f | Raise _ => false end.
+
 Record decl := {
   d_name : pystr;
   d_annot : bool;                 (* `a: s` (true) or `a = s` (false) *)
@@ -457,23 +463,56 @@ Section Decl.
   (* Field._try_default_value: the exception class is preserved *)
   Definition try_default (f : field) (d : pyval) : res unit := _ <- vset re_match e f d ;; Ok tt.
 
-  (* Field.__init__: `if default:` — a falsy default is not validated here *)
+  (* Field.__init__: `if default:` — a falsy default is not validated here.  WHICH test guards the validation is
+     read from the source on every run (Gen/AnnotGuards.v init_default_rule: `if default:` / `if default is not None:`) *)
+  Definition init_validates (d : pyval) : bool :=
+    match init_default_rule with
+    | InitDefaultIfNotNone => match d with PNone => false | _ => true end
+    | _ => py_truthy d
+    end.
   Definition init_default (f : field) (kw : option pyval) : res unit :=
-    match kw with Some d => if py_truthy d then try_default f d else Ok tt | None => Ok tt end.
+    match kw with Some d => if init_validates d then try_default f d else Ok tt | None => Ok tt end.
 
+  (* "Got a mutable value as default": isinstance(default, <the tuple in the source>), Gen/AnnotGuards.v *)
   Definition is_mutable_default (d : pyval) : bool :=
-    match d with PList _ | PDict _ | PSet false _ => true | _ => false end.
+    match d with
+    | PList _ => str_in (s2p "list") mutable_default_types
+    | PDict _ => str_in (s2p "dict") mutable_default_types
+    | PSet false _ => str_in (s2p "set") mutable_default_types
+    | _ => false
+    end.
 
-  (* a default given with `=` is validated whenever the field has no truthy _default yet
-     (c(default=d) for classes, _try_default_value / _apply_default_... otherwise) *)
-  Definition eq_default (f : field) (kw eq : option pyval) : res (option pyval) :=
+  (* WHERE a default given with `=` is processed depends on what the annotation evaluated to:
+       PathClass       a Field CLASS (`a: Integer = d`, `a: int = d` via the table): the class is instantiated with
+                       default=d (_instantiate_fields_if_needed / _type_with_default_value_if_exists), i.e. Field.__init__;
+       PathTypingInst  a typing generic / Union converted to a Field INSTANCE: _type_with_default_value_if_exists calls
+                       _try_default_value(d) right away;
+       PathInst        a Field instance / Structure class written as such: nothing yet.
+     Then _apply_default_and_update_required_... (all three): if the field has no truthy _default so far, a list / dict /
+     set default is refused ("mutable value as default"), any other is validated and stored. *)
+  Inductive decl_path := PathClass | PathTypingInst | PathInst.
+  Definition decl_path_of (o : pyobj) : decl_path :=
+    match o with
+    | OFieldCls _ => PathClass
+    | OFieldInst _ | OStruct _ => PathInst
+    | _ => match tli o with Ok (Some (FVCls _)) => PathClass | _ => PathTypingInst end
+    end.
+
+  Definition apply_default (f : field) (cur : option pyval) (d : pyval) : res (option pyval) :=
+    let body := if is_mutable_default d then Raise ValueError else _ <- try_default f d ;; Ok (Some d) in
+    match cur with
+    | Some k => if py_truthy k then Ok cur else body
+    | None => body
+    end.
+
+  Definition eq_default (path : decl_path) (f : field) (kw eq : option pyval) : res (option pyval) :=
     match eq with
     | None => Ok kw
     | Some d =>
-        match kw with
-        | Some k => if py_truthy k then Ok kw
-                    else if is_mutable_default d then Raise ValueError else _ <- try_default f d ;; Ok (Some d)
-        | None => if is_mutable_default d then Raise ValueError else _ <- try_default f d ;; Ok (Some d)
+        match path with
+        | PathInst => apply_default f kw d
+        | PathClass => _ <- (if init_validates d then try_default f d else Ok tt) ;; apply_default f (Some d) d
+        | PathTypingInst => _ <- try_default f d ;; apply_default f None d
         end
     end.
 
@@ -488,7 +527,7 @@ Section Decl.
                   | OFieldInst _ => match d_kw d with Some PNone => None | x => x end
                   | _ => None
                   end in
-        dv <- eq_default f kw (if d_annot d then d_eq d else None) ;;
+        dv <- eq_default (decl_path_of o) f kw (if d_annot d then d_eq d else None) ;;
         Ok (Some {| fr_name := d_name d; fr_field := f; fr_default := dv;
                     fr_optional := d_opt d || (d_annot d && marks_optional (d_ty d)) |})
     end.
@@ -502,6 +541,27 @@ Section Decl.
   (* the class: its fields (with defaults) and its _required (no predefined _required, base Structure) *)
   Definition class_result (ds : list decl) : res (list fres * list pystr) :=
     rs <- mapM decl_result ds ;;
+    let fs := somes rs in
+    Ok (fs, map fr_name (filter (fun r => negb (has_default r) && negb (fr_optional r)) fs)).
+
+  (* ---------------------------------------------------------------- from __future__ import annotations *)
+  (* The compiler stores every annotation as its source text; _evaluate_if_future_annotations evaluates the text
+     (same module globals, same frame locals: the object [pyeval] describes) only under the guard read from the
+     source (Gen/AnnotGuards.v future_rule: today `isinstance(v, str) and len(v) < 50`).  A text that is not evaluated
+     stays a str: not a Field, not generic, not in the type table — get_typing_lib_info returns None and the
+     annotation is IGNORED (a `= d` next to it stays a plain class attribute).  [len] = length of the stored text. *)
+  Definition future_evaluated (len : Z) : bool :=
+    match future_rule with
+    | FutureEvalBelow n => (len <? n)%Z
+    | FutureEvalAlways => true
+    | FutureUnrecognised => true
+    end.
+
+  Definition decl_result_future (len : Z) (d : decl) : res (option fres) :=
+    if d_annot d && negb (future_evaluated len) then Ok None else decl_result d.
+
+  Definition class_result_future (ds : list (Z * decl)) : res (list fres * list pystr) :=
+    rs <- mapM (fun p => decl_result_future (fst p) (snd p)) ds ;;
     let fs := somes rs in
     Ok (fs, map fr_name (filter (fun r => negb (has_default r) && negb (fr_optional r)) fs)).
 End Decl.
